@@ -181,3 +181,22 @@ m("C20-undo-emits-before-check", "C20", "data_model/tracks.py",
   "        if self.action_history.undo():\n            self.refresh.emit()\n            return True\n        return False", "        self.refresh.emit()\n        if self.action_history.undo():\n            return True\n        return False")
 m("C20-add-node-emits-without-node", "C20", "user_actions/user_add_node.py",
   "            self.tracks.refresh.emit(node)", "            self.tracks.refresh.emit()")
+# ----------------------------------------------------------------------------- reverts of repairs
+m("C11-revert-D11-time-check-after-subedits", "C11", "user_actions/user_update_segmentation.py",
+  "            assert len(np.unique(times)) == 1, \"Can only update one time point at a time\"\n        try:",
+  "            pass\n        try:")
+# (reverting D12 alone is equivalent under C11 since D14's rollback also covers the overflow path)
+m("C11-revert-D14-no-rollback-in-add-node", "C11", "user_actions/user_add_node.py",
+  "            for action in reversed(self.actions):\n                action.inverse()\n            raise", "            raise")
+m("C04-revert-D13-from-tracks-enables-only-on-recompute", "C04", "data_model/solution_tracks.py",
+  "        soln_tracks.enable_features(id_keys, recompute=force_recompute)", "        if force_recompute:\n            soln_tracks.enable_features(id_keys, recompute=force_recompute)")
+m("C14-revert-D10-none-stored-on-undo", "C14", "actions/update_node_attrs.py",
+  "            if value is None:", "            if False:")
+m("C05-revert-D2-delete-division-edge-keeps-lineage", "C05", "user_actions/user_delete_edge.py",
+  "                    self.tracks.get_track_id(edge[1]),\n                    self.tracks.get_next_lineage_id(),", "                    self.tracks.get_track_id(edge[1]),\n                    None,")
+m("C05-revert-D2-new-division-keeps-lineage", "C05", "user_actions/user_add_edge.py",
+  "                    self.tracks.get_track_id(target),\n                    self.tracks.get_lineage_id(source),", "                    self.tracks.get_track_id(target),\n                    None,")
+m("C05-revert-D2-delete-node-keeps-lineage", "C05", "user_actions/user_delete_node.py",
+  "                    self.tracks.get_track_id(succ),\n                    self.tracks.get_next_lineage_id(),", "                    self.tracks.get_track_id(succ),\n                    None,")
+m("C01-revert-D9-per-axis-features-unregistered", "C01", "data_model/tracks.py",
+  "                    feature_dict[attr] = {", "                    features[attr] = {")
